@@ -178,7 +178,7 @@ def c02(sc, tier, seed):
 
 
 def c06(sc, tier, seed):
-    return transition_check(sc, tier, seed, 'C06', ['MC_keyspace'], walks=['MC_keyspace_walk'], quick_n=26000, steer=('keys',),
+    return transition_check(sc, tier, seed, 'C06', ['MC_keyspace', 'MC_sort'], walks=['MC_keyspace_walk'], quick_n=26000, steer=('keys',),
                             rule='TLC enumerates MC_keyspace: 2 keys, each missing or one of 9 values (2 strings, 3 lists, 2 hashes, 2 sets; one- and two-element aggregates so that removing the last element is reached) x one well-formed instance of every data command per key (the WRONGTYPE cross product) + generic key commands (DEL UNLINK EXISTS TYPE TOUCH RENAME RENAMENX COPY KEYS with 16 glob patterns, RANDOMKEY, DBSIZE, SORT variants) + arity/unknown-command failures; FailedInert and WellFormed (no empty aggregate, one type per key) are checked by TLC on the ideal reading; every transition is replayed with full-state comparison before/after (that comparison is the inertness check on the real server).')
 
 
